@@ -300,12 +300,14 @@ DiffCommon(in, obs) ==
       fileOf(t) == CHOOSE i \in DOMAIN fs : t \in Range(TypesOf(in.lang, fs[i]))
   IN  IF ~inq THEN {}
       ELSE IF oc.panic THEN (IF oc.accepts THEN {Item("panic", "common", {})} ELSE {})
-      ELSE EntriesDiff(allTypes, typeEntries, "common-type-missing", "common-type-duplicated", "common-type-undeclared", "common:",
-                       LAMBDA t, e : IF in.lang = "go" THEN GoTypeDiff(fs[fileOf(t)], t, e, "common:")
-                                     ELSE PyClassDiff(t, e, "common:", allNested)) \cup
-           {Item("common-entry-undeclared", "common:" \o otherEntries[k].name, {}) :
-              k \in {x \in DOMAIN otherEntries : \/ otherEntries[x].name \notin Range(NamesOf(allFuncs))
-                                                 \/ Occ(NamesOf(otherEntries), otherEntries[x].name) > 1}}
+      ELSE LET raw == EntriesDiff(allTypes, typeEntries, "common-type-missing", "common-type-duplicated",
+                                  "common-type-undeclared", "common:",
+                                  LAMBDA t, e : IF in.lang = "go" THEN GoTypeDiff(fs[fileOf(t)], t, e, "common:")
+                                                ELSE PyClassDiff(t, e, "common:", allNested)) \cup
+                      {Item("common-entry-undeclared", "common:" \o otherEntries[k].name, {}) :
+                         k \in {x \in DOMAIN otherEntries : \/ otherEntries[x].name \notin Range(NamesOf(allFuncs))
+                                                            \/ Occ(NamesOf(otherEntries), otherEntries[x].name) > 1}}
+           IN  raw
 
 -----------------------------------------------------------------------------
 DiffFile(lang, f, o, w) == IF lang = "go" THEN DiffGoFile(f, o, w) ELSE DiffPyFile(f, o, w)
